@@ -4,6 +4,7 @@ import (
 	"fmt"
 	"go/token"
 	"go/types"
+	"strconv"
 	"strings"
 
 	"golang.org/x/tools/go/ssa"
@@ -909,16 +910,22 @@ func lastAppendedByte(g *ssa.Function) (int64, bool) {
 			continue
 		}
 		v := stripConv(ret.Results[0])
-		c, ok := v.(*ssa.Call)
+		k, ok := int64(0), false
+		if c, isCall := v.(*ssa.Call); isCall {
+			if bi, isBi := c.Call.Value.(*ssa.Builtin); isBi && bi.Name() == "append" && len(c.Call.Args) == 2 {
+				// variadic arg: slice of a new array with one element stored
+				k, ok = singleVariadicConst(c.Call.Args[1])
+			}
+		}
 		if !ok {
-			return 0, false
+			// through key-building helpers: the last component of the resolved append chain
+			comps := keyComponents(v, g, 0)
+			if len(comps) > 0 && strings.HasPrefix(comps[len(comps)-1], "byte=0x") {
+				if u, err := strconv.ParseInt(comps[len(comps)-1][len("byte=0x"):], 16, 64); err == nil {
+					k, ok = u, true
+				}
+			}
 		}
-		bi, ok := c.Call.Value.(*ssa.Builtin)
-		if !ok || bi.Name() != "append" || len(c.Call.Args) != 2 {
-			return 0, false
-		}
-		// variadic arg: slice of a new array with one element stored
-		k, ok := singleVariadicConst(c.Call.Args[1])
 		if !ok {
 			return 0, false
 		}
